@@ -14,6 +14,7 @@ import (
 	"reflect"
 	"sort"
 	"strings"
+	"sync"
 
 	"github.com/ProtonMail/gluon"
 	"github.com/ProtonMail/gluon/db"
@@ -30,6 +31,10 @@ type txn struct {
 	Ops      []op
 	Abort    bool // the callback returns an error after the last operation
 	ReadOnly bool // executed through Client.Read
+	// Overlap > 0: the (read) operations are executed Iters times by Overlap concurrent Client.Read calls whose
+	// callbacks are all inside Read before the first query starts (the connection pool of database/sql grows);
+	// reader number Last runs longest, so its connection is the one the pool hands out next.
+	Overlap, Iters, Last int
 }
 
 type scenario struct {
@@ -99,7 +104,84 @@ func runScenario(ctx *common.Ctx, sc *scenario, wantCoq bool) (out runOut) {
 	return
 }
 
+// runOverlap executes an overlap transaction (see txn.Overlap). Every result of every reader is compared with the oracle.
+func runOverlap(bg context.Context, client db.Client, ids *idmap, oracle *oDB, t *txn, ti int, out *runOut) *failure {
+	var want []res
+	var wantErr []string
+	for i := range t.Ops {
+		r, ec := oracle.clone().apply(&t.Ops[i])
+		want = append(want, normNil(r.canon()))
+		wantErr = append(wantErr, ec)
+		out.evals++
+	}
+	n := t.Overlap
+	started := make(chan struct{}, n)
+	gate := make(chan struct{})
+	fails := make([]*failure, n)
+	var wg sync.WaitGroup
+	for g := 0; g < n; g++ {
+		wg.Add(1)
+		go func(g int) {
+			defer wg.Done()
+			defer func() {
+				if v := recover(); v != nil {
+					fails[g] = &failure{Kind: "panic", Detail: fmt.Sprint(v), Tx: ti}
+				}
+			}()
+			iters := t.Iters
+			if g == t.Last {
+				iters += t.Iters/2 + 3
+			}
+			err := client.Read(bg, func(ctx context.Context, rd db.ReadOnly) error {
+				started <- struct{}{}
+				<-gate
+				for k := 0; k < iters; k++ {
+					for i := range t.Ops {
+						r, err := ids.execOp(ctx, rd, nil, &t.Ops[i])
+						if errClass(err) != wantErr[i] {
+							fails[g] = &failure{Kind: "errclass", Detail: fmt.Sprintf("%s (concurrent reader %d): want error class %q got %q (%v)", t.Ops[i].K, g, wantErr[i], errClass(err), err), Tx: ti, Op: i}
+							return nil
+						}
+						if err == nil && !reflect.DeepEqual(want[i], normNil(r.canon())) {
+							fails[g] = &failure{Kind: "result", Detail: fmt.Sprintf("%s (concurrent reader %d): want %s got %s", t.Ops[i].K, g, showRes(want[i]), showRes(r.canon())), Tx: ti, Op: i}
+							return nil
+						}
+					}
+				}
+				return nil
+			})
+			if err != nil && fails[g] == nil {
+				fails[g] = &failure{Kind: "writeerr", Detail: "Read returned " + err.Error(), Tx: ti}
+			}
+		}(g)
+	}
+	for g := 0; g < n; g++ {
+		<-started
+	}
+	close(gate)
+	wg.Wait()
+	for _, f := range fails {
+		if f != nil {
+			return f
+		}
+	}
+	return nil
+}
+
 func runTx(bg context.Context, client db.Client, raw *sql.DB, ids *idmap, oracle *oDB, t *txn, ti int, out *runOut) (*failure, string) {
+	if t.Overlap > 0 {
+		if f := runOverlap(bg, client, ids, oracle, t, ti, out); f != nil {
+			return f, ""
+		}
+		d, err := ids.dumpRaw(raw)
+		if err != nil {
+			return &failure{Kind: "infra", Detail: "raw dump: " + err.Error(), Tx: ti}, ""
+		}
+		if diff := compareDump(oracle, d); diff != "" {
+			return &failure{Kind: "dump", Detail: diff, Tx: ti, Op: len(t.Ops)}, ""
+		}
+		return nil, "" // not expressible in the Coq model
+	}
 	work := oracle.clone()
 	type obs struct {
 		r   res
@@ -121,7 +203,9 @@ func runTx(bg context.Context, client db.Client, raw *sql.DB, ids *idmap, oracle
 		return nil
 	}
 	var werr error
-	func() {
+	done := make(chan struct{})
+	go func() { // every transaction comes from another goroutine, as in the server
+		defer close(done)
 		defer func() {
 			if v := recover(); v != nil {
 				panicked = v
@@ -133,6 +217,7 @@ func runTx(bg context.Context, client db.Client, raw *sql.DB, ids *idmap, oracle
 			werr = client.Write(bg, func(ctx context.Context, tx db.Transaction) error { return body(ctx, tx, tx) })
 		}
 	}()
+	<-done
 	if panicked != nil {
 		return &failure{Kind: "panic", Detail: fmt.Sprint(panicked), Tx: ti, Op: len(seen)}, ""
 	}
@@ -347,6 +432,9 @@ func (sc *scenario) canon(f *failure) string {
 		}
 		if t.Abort {
 			k += "!"
+		}
+		if t.Overlap > 0 {
+			k = fmt.Sprintf("R||x%d", t.Overlap)
 		}
 		ts = append(ts, k+"["+strings.Join(os, ";")+"]")
 	}
